@@ -129,6 +129,13 @@ pub fn c03(p: &Params) -> Outcome {
             let mut g = f.clone();
             g.extend(rng.bytes(1 + (l % 7)));
             c03_check(ctx, &g, "valid_frame_with_suffix");
+            if kind == 2 {
+                for sfx in huge_suffixes(&mut rng, f.len()).into_iter().take(2) {
+                    let mut g = f.clone();
+                    g.extend(sfx);
+                    c03_check(ctx, &g, "valid_frame_with_suffix_beyond_64KiB");
+                }
+            }
             // wrong preambles (all 255)
             if kind == 2 || l < 4 {
                 let mut g = f.clone();
@@ -1145,6 +1152,20 @@ fn c13_check(ctx: &mut Ctx, f: &[u8], suffixes: &[Vec<u8>], label: &'static str)
     }
 }
 
+/// suffixes that make the whole slice 65536*k + r bytes long with r below, at and just above
+/// the frame length (where a length kept in 16 bits would wrap)
+fn huge_suffixes(rng: &mut Rng, frame_len: usize) -> Vec<Vec<u8>> {
+    let k = rng.range(1, 3) as usize;
+    let r1 = rng.usize_below(frame_len);
+    let mut out = Vec::new();
+    for total in [65_536 * k + r1, 65_536 * k + frame_len, 65_536 * k, 65_536 + rng.usize_below(140_000)] {
+        if total > frame_len {
+            out.push(rng.bytes(total - frame_len));
+        }
+    }
+    out
+}
+
 fn suffix_set(rng: &mut Rng) -> Vec<Vec<u8>> {
     let mut v: Vec<Vec<u8>> = Vec::new();
     v.push(vec![rng.u8()]);
@@ -1180,14 +1201,22 @@ pub fn c13(p: &Params) -> Outcome {
                     bits::write(&mut payload, 0, 12, n as u128);
                 }
                 let f = crc::frame(&payload);
-                let sfx = suffix_set(&mut rng);
+                let mut sfx = suffix_set(&mut rng);
+                if k == 0 || (l < 8 && k < 6) {
+                    sfx.extend(huge_suffixes(&mut rng, f.len()));
+                    ctx.count("frames_with_suffixes_beyond_64KiB");
+                }
                 c13_check(ctx, &f, &sfx, "synthetic_frames");
             }
         } else {
             let n = nums[(i - 1024) % nums.len()];
             let f = if rng.bool() { gen::lib_frame(n, &mut rng) } else { Some(gen::wire_frame(&mut rng, n).0) };
             if let Some(f) = f {
-                let sfx = suffix_set(&mut rng);
+                let mut sfx = suffix_set(&mut rng);
+                if i % 16 == 0 {
+                    sfx.extend(huge_suffixes(&mut rng, f.len()));
+                    ctx.count("frames_with_suffixes_beyond_64KiB");
+                }
                 c13_check(ctx, &f, &sfx, "typed_frames");
             }
         }
